@@ -140,7 +140,7 @@ def sweep(n, procs=16):
             jobs.append(("s%d sweep %d %d %d %s" % (p, n, lo, hi, core.hx(path)), path))
 
         def run(job):
-            r, note = core.run_impl([job[0]], timeout=3600)
+            r, note = core.run_impl([job[0]], timeout=1200)
             return r, note
         with ThreadPoolExecutor(max_workers=procs) as ex:
             outs = list(ex.map(run, jobs))
@@ -191,7 +191,7 @@ def sweep2(n, i1, i2, procs=16):
     jobs = ["t%d sweep2 %d %d %d %d %d" % (p, n, p * step, (W if p == procs - 1 else (p + 1) * step), i1, i2) for p in range(procs)]
 
     def run(job):
-        r, note = core.run_impl([job], timeout=3600)
+        r, note = core.run_impl([job], timeout=1200)
         return list(r.values())[0] if r else None
     with ThreadPoolExecutor(max_workers=procs) as ex:
         outs = list(ex.map(run, jobs))
